@@ -1123,6 +1123,11 @@ JNP['linalg'] = {'norm': P_norm, 'solve': lambda a, b: linsolve(a, b), 'inv': la
 PI = Rat(Poly.sym('pi'))
 JNP['pi'] = PI
 
+
+def pi():
+    """The symbol pi in the CURRENT value domain (PI above is the exact-mode value)."""
+    return Rat(Poly.sym('pi'))
+
 # ----------------------------------------------------------------- interpreter
 class Interp:
     def __init__(self):
@@ -1474,6 +1479,8 @@ class Interp:
     def attr(self, v, a):
         if isinstance(v, ModRef):
             if v.name == 'jnp':
+                if a == 'pi':
+                    return pi()
                 if a in JNP:
                     x = JNP[a]
                     return ('jnpns', x) if isinstance(x, dict) else (('prim', a, x) if callable(x) else x)
